@@ -183,7 +183,8 @@ def build(shapes, seed=0, mode="binds", formname="data", homonyms=False):
             chosen = rnd.sample(cols, min(k, len(cols)))
             for c in chosen:
                 u = _uniq(n, c)
-                if c in ("required", "readonly") and rnd.random() < 0.5:
+                if (c in ("required", "readonly") and rnd.random() < 0.5) or (c in CONVERTIBLE and rnd.random() < 0.15):
+                    # every convertible bind attribute (readonly, required, relevant, constraint, calculate) takes yes/no spellings
                     val = rnd.choice(YESNO)
                     kind = "conv"
                     exp = val
@@ -196,6 +197,12 @@ def build(shapes, seed=0, mode="binds", formname="data", homonyms=False):
                         val = f". != '{u}'" if c == "constraint" else f"'{u}' = '{u}'"
                         kind = "lit"
                         exp = val
+                elif c in ("jr:constraintMsg", "jr:requiredMsg") and rnd.random() < 0.2:
+                    # the message both unsuffixed and translated (columns end up in either order): it goes through itext
+                    val = f"msg {u} plain"
+                    kind = "lit"
+                    exp = f"jr:itext('/{formname}/{'/'.join(path)}:{c}')"
+                    row[f.hdr(c) + ("::" if not f.single_colon else ":") + "French (fr)"] = f"msg {u} fr"
                 elif c in ("jr:constraintMsg", "jr:requiredMsg"):
                     if ref and rnd.random() < 0.3:
                         val = f"msg {u} {ref} end"
